@@ -22,6 +22,9 @@ EVT_LEAVES = {
 CNT_SLOTS = {"J1": 11, "J2": 12, "J": 10}
 # Sum() over the jets of bank "J" of an accessor, used as an operand of an event-level expression
 SUM_SLOTS = {"i": 41, "f": 42, "d": 43}
+# First() of the jets of bank "J" (through an accessor), used as an operand of an event-level expression: it needs
+# STATEMENTS (a loop, an `is_first` flag, a throw on an empty sequence) wherever it is evaluated
+FIRST_SLOTS = {"i": 51, "f": 52, "d": 53}
 METHODS = [("i", "int"), ("f", "float"), ("d", "double"), ("b", "bool"), ("i2", "int"), ("f2", "float"), ("d2", "double"), ("b2", "bool")]
 
 KINDS = ["intLit", "intCount", "float", "double", "bool"]
@@ -50,6 +53,21 @@ def sum_leaf(k: str) -> Dict[str, Any]:
     """`e.Jets("J").Select(lambda j: j.k()).Sum()` as an operand: an accumulator of k's type (theorem sum_correct)"""
     ty = JET_LEAVES[k][0]
     return {"leaf": [ty, f"sum_{k}", SUM_SLOTS[k]], "_src": f'e.Jets("J").Select(lambda j: j.{k}()).Sum()', "_agg": ["Sum", k]}
+
+
+def first_leaf(k: str, inner: bool = False) -> Dict[str, Any]:
+    """`e.Jets("J").First().k()` (or `…Select(lambda j: j.k()).First()`): the k of the first jet of bank "J" """
+    ty = JET_LEAVES[k][0]
+    s = f'e.Jets("J").Select(lambda j: j.{k}()).First()' if inner else f'e.Jets("J").First().{k}()'
+    return {"leaf": [ty, f"first_{k}", FIRST_SLOTS[k]], "_src": s, "_first": k}
+
+
+def has_first(e: Any) -> bool:
+    if isinstance(e, dict):
+        return "_first" in e or any(has_first(v) for v in e.values())
+    if isinstance(e, list):
+        return any(has_first(v) for v in e)
+    return False
 
 
 def acc_leaf() -> Dict[str, Any]:
@@ -218,6 +236,11 @@ def form_cond(t, a, b):
     return {"form": "cond", "t": t, "a": a, "b": b}
 
 
+def form_condx(t, a, b, body_of):
+    """`body_of(R)` where R is the value of `a if t else b`: a conditional used INSIDE arithmetic"""
+    return {"form": "condx", "t": t, "a": a, "b": b, "body": body_of(cond_leaf(t, a, b))}
+
+
 def form_agg(seed, upd, shortcut: Optional[str] = None, value=None):
     """upd: {"plain": e} | {"cond": [t, a, b]} over acc_leaf() and jet-level leaves; `shortcut`: Count/Sum/Max/Min
     written as the func_adl method (then `value` is the element expression)."""
@@ -234,6 +257,8 @@ def form_src(form: Dict[str, Any], level: str) -> str:
         body = src(form["e"])
     elif form["form"] == "cond":
         body = f'({src(form["a"])} if {src(form["t"])} else {src(form["b"])})'
+    elif form["form"] == "condx":
+        body = src(form["body"])  # its conditional operand renders as the conditional's source
     else:
         if form.get("_shortcut"):
             sc = form["_shortcut"]
@@ -600,6 +625,10 @@ def env_from_row(row: Tuple, level: str, counts: Tuple[int, int] = (0, 0), jrows
         col = [n for n, _ in METHODS].index(k)
         tot = sum(r[col] for r in jrows)
         env[str(slot)] = cell(i=int(tot), d=float(tot))
+    for k, slot in FIRST_SLOTS.items():
+        col = [n for n, _ in METHODS].index(k)
+        v = jrows[0][col] if jrows else 0
+        env[str(slot)] = cell(i=int(v), d=float(v))
     return env
 
 
